@@ -89,7 +89,7 @@ def testDeps (G : Graph) (fuel : Nat) (t : Nat) : List Nat → KSt → KSt
       else s
     testDeps G fuel t ds s'
 
-/-- the `if !includeTests { for _, target := range graph.AllTargets() { if target.IsTest() {…} } }` pass -/
+/-- one `for _, target := range graph.AllTargets() { if target.IsTest() {…} }` pass of the `!includeTests` block -/
 def testPass (G : Graph) (fuel : Nat) : List Nat → KSt → KSt
   | [], s => s
   | t :: ts, s =>
@@ -99,6 +99,14 @@ def testPass (G : Graph) (fuel : Nat) : List Nat → KSt → KSt
       | some ds => testPass G fuel ts (testDeps G fuel t ds s)
     else testPass G fuel ts s
 
+/-- `for changed := true; changed; { before := len(keepTargets); <test pass>; changed = len(keepTargets) != before }`
+(`k` bounds the number of passes; every pass but the last adds a target, so `nodes.length + 1` passes suffice) -/
+def testFix (G : Graph) (fuel : Nat) : Nat → KSt → KSt
+  | 0, s => { s with oof := true }
+  | k+1, s =>
+    let s' := testPass G fuel G.nodes s
+    if s'.keep.length != s.keep.length then testFix G fuel k s' else s'
+
 /-- everything `targetsToRemove` decides to keep -/
 def keepSet (G : Graph) (Q : Query) : KSt :=
   let fuel := G.nodes.length + 1
@@ -107,7 +115,7 @@ def keepSet (G : Graph) (Q : Query) : KSt :=
   let s1 := (G.nodes.filter (isRoot G Q)).foldl add s0
   let s2 := Q.subincs.foldl add s1
   let s3 := Q.args.foldl add s2
-  if Q.includeTests then s3 else testPass G fuel G.nodes s3
+  if Q.includeTests then s3 else testFix G fuel fuel s3
 
 /-- `gcSibling(graph, t)` -/
 def gcSibling (G : Graph) (t : Nat) : Nat :=
